@@ -27,12 +27,12 @@ setup_numba_cache()
 
 PY = sys.executable
 INT32_MIN, INT32_MAX = -2 ** 31, 2 ** 31 - 1
-METRICS = ["euclidean", "cosine", "manhattan", "hamming", "jaccard"]   # surrogate + sqrt, surrogate + log correction, no surrogate, no surrogate + angular trees (not scale free)
+METRICS = ["euclidean", "cosine", "manhattan", "hamming", "jaccard", "hellinger"]   # surrogate + sqrt, surrogate + log correction, no surrogate, no surrogate + angular trees (not scale free)
 REL_TOL = 1e-5
 # cosine is evaluated as 1 - 2**(-log2(...)) in float32: whatever the code does, a value near 1 is subtracted from 1, so the
 # result carries an absolute error of a few float32 ulps of 1.0 (1.2e-7); small cosine distances therefore get an absolute
 # floor of 4 ulp(1.0).  euclidean / manhattan involve no cancellation: purely relative.
-ABS_TOL = {"cosine": 4 * 2.0 ** -23, "euclidean": 0.0, "manhattan": 0.0, "hamming": 0.0, "jaccard": 4 * 2.0 ** -23}
+ABS_TOL = {"cosine": 4 * 2.0 ** -23, "euclidean": 0.0, "manhattan": 0.0, "hamming": 0.0, "jaccard": 4 * 2.0 ** -23, "hellinger": 1e-5}
 # a sparse matrix cannot hold a 0.0 entry; the module's own convention for a zero distance (adjacency_matrix_representation:
 # "Preserve any distance 0 points") is FLOAT32_EPS - accepted as the weight of an edge whose true length is 0
 FLOAT32_EPS = 2.0 ** -23
@@ -259,6 +259,17 @@ def make_data(case):
             else:
                 pts = (centre + 0.3 * r.standard_normal((s, dim))).clip(0.05, None) * r.uniform(0.5, 4.0, size=(s, 1))
             rows.append(pts)
+    elif metric == "hellinger":
+        # word-count histograms over a vocabulary split into one block per cluster: different clusters have disjoint supports
+        # (hellinger distance exactly 1, where the surrogate saturates)
+        block = 6
+        dim = block * nc
+        for c, s in enumerate(sizes):
+            pts = np.zeros((max(s, 2 * case["k"] + 3) if (fam == "dup" and c < 2) else s, dim))
+            base = r.integers(1, 6, size=block).astype(float)
+            for row in pts:
+                row[c * block: (c + 1) * block] = base if (fam == "dup" and c < 2) else base + r.integers(0, 3, size=block)
+            rows.append(pts)
     elif metric == "jaccard":
         # sets over a vocabulary: every cluster has its own block of words, so members of different clusters are disjoint
         # (jaccard distance exactly 1, where the log-scale surrogate saturates); inside a cluster the sets overlap
@@ -335,6 +346,11 @@ def true_distance(metric, x, y):
         return float(1.0 - (x @ y) / np.sqrt((x @ x) * (y @ y)))
     if metric == "hamming":
         return float((x != y).mean())
+    if metric == "hellinger":
+        lx, ly = x.sum(), y.sum()
+        if lx == 0 and ly == 0: return 0.0
+        if lx == 0 or ly == 0: return 1.0
+        return float(np.sqrt(max(0.0, 1.0 - np.sqrt(x * y).sum() / np.sqrt(lx * ly))))
     if metric == "jaccard":
         u = float(((x != 0) | (y != 0)).sum())
         return 0.0 if u == 0 else float(1.0 - ((x != 0) & (y != 0)).sum() / u)
@@ -846,7 +862,7 @@ def run(res, tier, seed, search):
     res.rule = ("kernel: generator streams from API-like / negative / edge / derived states, bit-exact; rejection_sample(n, pool) for "
                 "n <= pool (incl. n = pool, pool = 1, n = 0) vs model exactly (samples + state), non-trivial = n >= 2 and 2n >= pool "
                 "(rejections occur); n > pool and degenerate states only in a killed child.  API: 2..8 separated clusters of sizes 1..40 "
-                "(families gauss / lattice (ties) / dup (>= 2k+3 copies of one point) / per metric euclidean, cosine, manhattan, hamming, jaccard (clusters with disjoint supports: all cross distances exactly 1); "
+                "(families gauss / lattice (ties) / dup (>= 2k+3 copies of one point) / per metric euclidean, cosine, manhattan, hamming, jaccard and hellinger (clusters with disjoint supports: all cross distances exactly 1); "
                 "k in 2..15, search_size in {3,5,10,25}), graph = adjacency_matrix_representation(neighbor_graph); non-trivial = the graph "
                 "has >= 2 components and at least one smaller than search_size; distinct = hash of the case description")
     quick = tier == "quick"
@@ -858,7 +874,7 @@ def run(res, tier, seed, search):
     cid = 0
     for metric in METRICS:
         cs = []
-        for i in range(per_metric):
+        for i in range(per_metric if metric not in ("jaccard", "hellinger") else max(4, per_metric // 2)):
             cs.append(gen_api_case(rng, metric, fams[(i + seed) % len(fams)], cid)); cid += 1
         if metric == "hamming":
             # one bit-packed index per run (the component search closure is typed for float32 rows)
